@@ -173,6 +173,8 @@ pub async fn run(out: &mut Out) {
         probe(out, "open-tunnel-then-reload", api, http, socks, origin, rules_json).await;
     }
     drop(held);
+    // TLS / QUIC / reverse-UDP listeners: clients stalled at every handshake stage, the API and a fresh client per listener
+    super::stall::stall_matrix_api(out, "C14", true).await;
 }
 
 async fn probe(out: &mut Out, scenario: &str, api: u16, http: u16, socks: u16, origin: u16, rules_json: &str) {
